@@ -8,6 +8,7 @@ func init() {
 	vRegister("H_C04_sign_constructed", H_C04_sign_constructed)
 	vRegister("H_C04_verify_constructed", H_C04_verify_constructed)
 	vRegister("H_C04_decoded", H_C04_decoded)
+	vRegister("H_C04_helpers", H_C04_helpers)
 }
 
 // mkAlgEntry puts an alg parameter into m: label 1 spelt with any Go integer
@@ -291,6 +292,71 @@ func H_C04_decoded() {
 			vAssert("decoded: absent alg without external data is ErrAlgorithmNotFound", err != nil && errors.Is(err, ErrAlgorithmNotFound))
 			vAssert("decoded: key never invoked", sv.calls == 0)
 		}
+	}
+	vReach("end")
+}
+
+// c04SignedUnder: whenever the key was used, the protected bytes it signed name exactly its own algorithm
+// (or none, with external data)
+func c04SignedUnder(tag string, sp *spySigner, ext []byte) {
+	if sp.calls == 0 {
+		return
+	}
+	st := vParse(sp.content)
+	ok := st != nil && nMajor(st) == 4 && nLen(st) >= 4 && nMajor(nChild(st, 1)) == 2
+	vAssert(tag+": ToBeSigned parses", ok)
+	if !ok {
+		return
+	}
+	content := nBytes(nChild(st, 1))
+	named, matches := false, false
+	if len(content) > 0 {
+		if m := vParse(content); m != nil && nMajor(m) == 5 {
+			for i := 0; i < nLen(m); i++ {
+				if k := nKey(m, i); nMajor(k) == 0 && nArg(k) == 1 {
+					named = true
+					matches = algInProtectedBytes(content, int64(sp.alg))
+				}
+			}
+		}
+	}
+	if named {
+		vAssert(tag+": the key signs protected bytes that name its own algorithm", matches)
+	} else {
+		vAssert(tag+": protected bytes without alg are signed only with external data", len(ext) > 0)
+	}
+}
+
+// the one-call helpers: Sign1, Sign1Untagged, SignHashEnvelope (which builds the protected header itself,
+// whatever raw bytes the base headers carry)
+func H_C04_helpers() {
+	prot := map[any]any{}
+	h := Headers{Unprotected: UnprotectedHeader{}}
+	if vChoose("protmap", 2) == 0 {
+		mkAlgEntry("alg", prot)
+		h.Protected = ProtectedHeader(prot)
+	}
+	sp := &spySigner{alg: Algorithm(vInt64("signer.alg")), sig: vBlobN("sig", 1, 64)}
+	var ext []byte
+	var err error
+	switch vChoose("helper", 3) {
+	case 0:
+		ext = mkExternal("ext")
+		_, err = Sign1(nil, sp, h, vBlob("payload"), ext)
+	case 1:
+		ext = mkExternal("ext")
+		_, err = Sign1Untagged(nil, sp, h, vBlob("payload"), ext)
+	case 2:
+		if vChoose("rawprot", 2) == 1 { // raw protected bytes in the base headers, naming any algorithm
+			mag := vUint64("raw.alg")
+			vAssume(mag <= 1<<63-1)
+			h.RawProtected = vSer(nnBstr(vSer(nnMap([]*vNodeT{nnInt(0, 1, -1), nnInt(vChoose("raw.algsign", 2), mag, -1)}, -1)), -1))
+		}
+		_, err = SignHashEnvelope(nil, sp, h, HashEnvelopePayload{HashAlgorithm: AlgorithmSHA256, HashValue: vBlobN("hash", 32, 32)})
+	}
+	c04SignedUnder("helpers", sp, ext)
+	if err != nil {
+		vAssert("helpers: key not invoked when the helper refuses", sp.calls == 0)
 	}
 	vReach("end")
 }
